@@ -1,8 +1,8 @@
 use std::io::Read;
 use std::collections::{HashSet, VecDeque};
 
-use crate::spec_util::validate_tag_path;
-use crate::tag_iterator_util::EBMLSize::{Known, Unknown};
+use crate::spec_util::{validate_tag_path, count_ended_tags};
+use crate::tag_iterator_util::EBMLSize::Known;
 use crate::tag_iterator_util::{DEFAULT_BUFFER_LEN, EBMLSize, ProcessingTag, AllowableErrors};
 
 use super::tools;
@@ -442,16 +442,10 @@ impl<R: Read, TSpec> TagIterator<R, TSpec>
 
         if let Some(next_read) = self.read_tag_checked() {
             if let Ok(next_tag) = &next_read {
-                while matches!(self.tag_stack.last(), Some(open_tag) if open_tag.size == Unknown) {
-                    let open_tag = self.tag_stack.last().unwrap();
-                    let previous_tag_ended = open_tag.is_ended_by(next_tag.tag.get_id());
-        
-                    if previous_tag_ended {
-                        let t = self.tag_stack.pop().unwrap();
-                        self.emission_queue.push_back(Ok((t.tag, t.tag_start)));
-                    } else {
-                        break;
-                    }
+                let doc_path: Vec<(u64, EBMLSize)> = self.tag_stack.iter().map(|t| (t.tag.get_id(), t.size)).collect();
+                for _ in 0..count_ended_tags::<TSpec>(next_tag.tag.get_id(), &doc_path) {
+                    let t = self.tag_stack.pop().unwrap();
+                    self.emission_queue.push_back(Ok((t.tag, t.tag_start)));
                 }
 
                 if let Some(Master::Start) = next_tag.tag.as_master() {
